@@ -464,7 +464,16 @@ class RequestHandler(BaseProtocol, Generic[_Request]):
         pass
 
     def data_received(self, data: bytes) -> None:
-        if self._force_close or self._close:
+        if (self._force_close or self._close) and not (
+            self._request_in_progress
+            and self.transport is not None
+            and self._parser is not None
+            and self._parser._payload_parser is not None
+            and not self._upgraded
+        ):
+            # Closing: nothing new is accepted - but the request being handled
+            # (it may finish during a graceful shutdown) still gets the rest of
+            # its body.
             return
         # parse http messages
         messages: Sequence[_MsgType]
